@@ -209,6 +209,13 @@ theorem tryBytesRange_nofault (s : St) (o n : Int) (w : String) (hl : s.len ≤ 
 theorem tryAlignBits_nofault (s : St) (n : Int) (w : String) : tryAlignBits s n ≠ .fault w := by
   unfold tryAlignBits; split <;> simp
 
+/-- bitBufIsZero never indexes past its scratch buffer, whatever the field length -/
+theorem isZeroScan_in_bounds (nbits : Int) : isZeroScanFault isZeroScanBytes nbits = false := by
+  unfold isZeroScanFault isZeroScanBytes isZeroBufBytes bitsByteCount
+  simp only [decide_eq_false_iff_not]
+  intro h
+  split at h <;> omega
+
 theorem rangeFn_onlyRec (s : St) (f n : Int) : OnlyRec (rangeFn s f n) := by
   intro v hv
   unfold rangeFn at hv
